@@ -3,7 +3,7 @@
 # Applies the patch to the repo ($VERIF_REPO, default /repo), runs the quick checks of the machinery in
 # $VERIF_DIR (default /verif) in parallel, undoes the patch, restores evidence, prints one line per property and
 # records the outcome in <dir>/meta.json.  For a long sweep use a copy of /verif and a worktree of /repo.
-D=$1; shift
+D=$(realpath $1); shift
 V=${VERIF_DIR:-/verif}; R=${VERIF_REPO:-/repo}; export VERIF_REPO=$R
 PROPS="$@"; [ -z "$PROPS" ] && PROPS="C01 C02 C03 C04 C05 C06 C07 C08 C09 C10 C11 C12 C13 C14 C15 C16 C17 C18 C19 C20"
 git -C $R apply $D/patch.diff || { echo "PATCH DOES NOT APPLY"; exit 2; }
